@@ -885,10 +885,12 @@ def from_dict(
 
             for child_class in derived_classes:
                 logger.debug(f"child class: {child_class.__name__}, mro: {child_class.mro()}")
-                child_init_fields: dict[str, Field] = get_init_fields(child_class)
-                child_init_field_names = set(child_init_fields.keys())
+                # NOTE: `to_dict` also writes the fields with `init=False` (and `from_dict` sets
+                # them back with `setattr`), so the keys of the dict have to be looked up among
+                # all the fields of the candidate, not only among the arguments of its `__init__`.
+                child_field_names = {f.name for f in fields(child_class)}
 
-                if child_init_field_names >= req_init_field_names:
+                if child_field_names >= req_init_field_names:
                     # `child_class` is the first class with all required fields.
                     logger.debug(f"Using class {child_class} instead of {cls}")
                     return from_dict(child_class, d, drop_extra_fields=False)
